@@ -10,6 +10,7 @@ import (
 	"os"
 	"strings"
 	"sync"
+	"sync/atomic"
 	"time"
 
 	tea "github.com/charmbracelet/bubbletea"
@@ -69,15 +70,31 @@ func (s *scriptReader) Read(p []byte) (int, error) {
 
 func runDetect(in decIn) (out decOut) {
 	out.ID = in.ID
-	defer func() {
-		if r := recover(); r != nil {
-			out.Panic = fmt.Sprint(r)
-		}
+	if atomic.LoadInt32(&decStalls) >= 3 {
+		out.Panic = "skipped after stalls"
+		return out
+	}
+	done := make(chan decOut, 1)
+	go func() {
+		o := decOut{ID: in.ID}
+		defer func() {
+			if r := recover(); r != nil {
+				o.Panic = fmt.Sprint(r)
+			}
+			done <- o
+		}()
+		w, m := tea.VerifDetectOneMsg(toBytes(in.B), in.More)
+		o.W = w
+		o.Msg = tea.VerifDescribeMsg(m)
 	}()
-	w, m := tea.VerifDetectOneMsg(toBytes(in.B), in.More)
-	out.W = w
-	out.Msg = tea.VerifDescribeMsg(m)
-	return out
+	select {
+	case o := <-done:
+		return o
+	case <-time.After(4 * time.Second):
+		atomic.AddInt32(&decStalls, 1)
+		out.Panic = "STALL: detectOneMsg did not return within 4s"
+		return out
+	}
 }
 
 // refLoop is the accounting the property states, executed with the real
@@ -111,9 +128,39 @@ func refLoop(chunks [][]int) (msgs []string, widths []int) {
 	return msgs, widths
 }
 
+// stalls seen so far: after a few the verdict is settled and the remaining cases are skipped (each stalled call
+// keeps spinning on a core for good)
+var decStalls int32
+
 func runRead(in decIn) decOut {
 	out := decOut{ID: in.ID}
-	out.Ref, out.RefW = refLoop(in.Chunks)
+	if atomic.LoadInt32(&decStalls) >= 3 {
+		out.Why = "skipped"
+		return out
+	}
+	type refRes struct {
+		m []string
+		w []int
+	}
+	refc := make(chan refRes, 1)
+	go func() {
+		defer func() {
+			if p := recover(); p != nil {
+				refc <- refRes{}
+			}
+		}()
+		m, w := refLoop(in.Chunks)
+		refc <- refRes{m, w}
+	}()
+	select {
+	case rr := <-refc:
+		out.Ref, out.RefW = rr.m, rr.w
+	case <-time.After(4 * time.Second):
+		atomic.AddInt32(&decStalls, 1)
+		out.Why = "stall"
+		out.Msgs = []string{}
+		return out
+	}
 	sr := &scriptReader{final: io.EOF}
 	if in.Err == "fail" {
 		sr.final = errScripted
@@ -182,7 +229,8 @@ func runRead(in decIn) decOut {
 		if out.Why == "err" && !strings.Contains(r.err.Error(), "error reading input") {
 			out.Why = "other:" + r.err.Error()
 		}
-	case <-time.After(10 * time.Second):
+	case <-time.After(4 * time.Second):
+		atomic.AddInt32(&decStalls, 1)
 		out.Why = "stall"
 	}
 	close(stop)
